@@ -10,7 +10,7 @@ import sys, os, json, gzip, subprocess, tempfile
 ROOT = os.path.dirname(os.path.dirname(os.path.abspath(__file__)))
 a = sys.argv[1:]
 pid, rec, binary = a[0], os.path.abspath(a[1]), a[2]
-clause, budget = None, 160
+clause, budget = None, 50
 i = 3
 while i < len(a):
     if a[i] == "--clause": clause = a[i + 1]; i += 2
